@@ -34,7 +34,15 @@ RULE = ("histories of 1-40 operations (set, get, del, in, len, list, order_first
 TRUSTED = [
     "model coq/Dict/Heap.v is a hand transcription of LinkedListNode/LinkedList/OrderedSet/_CaseInsensitiveString, "
     "Deb822Dict, Deb822.__setitem__/validate_input, _dump_format and the plain-text line loop of _internal_parser; "
-    "tied to the code only by this correspondence",
+    "tied to the code by this correspondence — and, for the pointer level (LinkedListNode, LinkedList, OrderedSet: "
+    "link/unlink, append, insert, remove_node, iteration, add, remove, the four re-orderings), since the tie by "
+    "regeneration (coq/Props/C09Tie.v) each model operation is PROVED equal, on all heaps, to the method regenerated "
+    "from the source (coq/Gen/TrLinkedList.v); still tied by the correspondence only: Deb822Dict and everything above "
+    "it, _strI hashing/equality as lower-cased text, the slots of a node as heap cells, weak references as ids",
+    "for the tie: harness/py2coq.py's rendering of each construct (HEAP MODE: objects with identity as references into "
+    "a threaded heap, attribute reads/writes as heap primitives, allocation, `is`, calls on part of the state, callable "
+    "values, try/except Exception/raise, generators as the lists they yield) and the types given in TR_MODULE; "
+    "coq/Dict/TrPrims.v (each primitive defined from the model's own heap function); coq/Lib/Tr.v",
     "str.lower() of the running interpreter for keys with non-ASCII letters (carried in each case); "
     "ASCII lower-casing otherwise (coq/Lib/PyStr.v ascii_lower)",
     "the compact encoding of the observed frames (harness/props/c09.py _compact, asserted loss-free against its Python "
@@ -678,3 +686,179 @@ def spec_selftest(items, scratch, tier):
         dis.append({"shard_errors": errs[:1]})
     return {"oracle": "plain Python list model (harness/props/c09.py _RefDict; independent of /repo)",
             "compared": len(ref_items), "disagreements": dis}
+
+
+# ---------------------------------------------------------------------------
+# TIE BY REGENERATION, at the POINTER LEVEL: the doubly linked list behind the ordered key set — LinkedListNode,
+# LinkedList and OrderedSet of lib/debian/_util.py — is regenerated into coq/Gen/TrLinkedList.v on every run
+# (harness/py2coq.py, HEAP MODE: a LinkedListNode is a reference `id` into the model's heap of Dict/Heap.v, which is
+# threaded as hidden state and returned on exceptions too; `x.attr` / `x.attr = v` on a reference are heap lookups /
+# updates through the primitives of coq/Dict/TrPrims.v, each defined from the model's own heap functions;
+# `LinkedListNode(v)` is the model's fresh allocation followed by the translated __init__; `a is b` is id equality;
+# the LinkedList inside an OrderedSet is part of the OrderedSet's state; the `reinserter` of OrderedSet._reorder is a
+# callable value: a bound method or a lambda, translated as a Coq function on the state).  coq/Dict/Tie.v proves every
+# regenerated function equal to the model's pointer-level operation that `agree` runs — for ALL heaps (well-formed or not),
+# all head/tail/table values and all arguments: same heap, same result, same exception kind; statements in
+# coq/Props/C09Tie.v.
+from harness import extract            # noqa: E402
+from harness import py2coq as _P       # noqa: E402
+
+_REF = ("ref", "LinkedListNode")
+_OREF = ("option", _REF)
+_WREF = ("coq", "wref")
+_HEAPT = ("coq", "heap")
+_HS = [("<heap>", "hp", _HEAPT)]                 # functions that change nodes: the heap is state
+_HG = [("hp", _HEAPT)]                            # functions that only read nodes: the heap is a ghost parameter
+_LLS = _HS + [("self.head_node", "s_head", _OREF), ("self.tail_node", "s_tail", _OREF), ("self._size", "s_size", "Z")]
+_LLG = _HG + [("s_head", _OREF), ("s_tail", _OREF), ("s_size", "Z")]
+_LLV = ["hp", "s_head", "s_tail", "s_size"]
+
+
+def _sub(coq, args, ret, sub):
+    c = _P.Call(coq, args, ret)
+    c.substate = list(sub)
+    return c
+
+
+def _nf(coq, name, params, ret, **kw):           # LinkedListNode: `self` is an ordinary parameter (a reference)
+    return _P.Fun(coq, "LinkedListNode." + name, params, ret, state=_HS, **kw)
+
+
+def _lm(coq, name, params, ret, **kw):           # LinkedList methods that change the list / the nodes
+    return _P.Fun(coq, "LinkedList." + name, params, ret, skip_first=True, state=_LLS, **kw)
+
+
+def _lr(coq, name, params, ret, **kw):           # LinkedList methods that only read
+    return _P.Fun(coq, "LinkedList." + name, params, ret, skip_first=True, ghost=_LLG, **kw)
+
+
+_STRI = ("coq", "stri")
+_TBL = ("coq", "ostable")
+_LOW = [("lower", ("coq", "(str -> str)"))]
+_OSS = _HS + [("self.__table", "s_table", _TBL), ("self.__order.head_node", "s_head", _OREF),
+              ("self.__order.tail_node", "s_tail", _OREF), ("self.__order._size", "s_size", "Z")]
+_OSG = _LOW + _HG + [("s_table", _TBL), ("s_head", _OREF), ("s_tail", _OREF), ("s_size", "Z")]
+_OSV = ["hp", "s_table", "s_head", "s_tail", "s_size"]
+_OSGV = "lower hp s_table s_head s_tail s_size"
+_REINS = ("fun", ("str",), _REF, tuple((v, t) for _, v, t in _OSS))       # Callable[[str], LinkedListNode[str]]
+
+
+def _om(coq, name, params, ret, **kw):           # OrderedSet methods that change the set
+    return _P.Fun(coq, "OrderedSet." + name, params, ret, skip_first=True, state=_OSS, ghost=_LOW, **kw)
+
+
+def _or(coq, name, params, ret, **kw):           # OrderedSet methods that only read
+    return _P.Fun(coq, "OrderedSet." + name, params, ret, skip_first=True, ghost=_OSG, **kw)
+
+
+_f_resolve = _P.Fun("tr_resolve_ref", "resolve_ref", [("ref", ("option", _WREF))], _OREF)
+_f_resolve.calls = {"ref": _P.Call("trp_deref ref", [], _OREF)}      # calling the weak reference
+
+_get_prev = _P.Call("tr_node_get_prev hp", [_REF], _OREF, True)
+_set_prev = _sub("tr_node_set_prev", [_REF, _OREF], "unit", ["hp"])
+
+TR_MODULE = _P.Module(
+    "TrLinkedList", "lib/debian/_util.py",
+    funs=[
+        _f_resolve,
+        # --- LinkedListNode
+        _nf("tr_node_init", "__init__", [("self", _REF), ("value", "str")], "unit"),
+        _P.Fun("tr_node_get_prev", "LinkedListNode.previous_node@getter", [("self", _REF)], _OREF, ghost=_HG),
+        _nf("tr_node_set_prev", "previous_node@setter", [("self", _REF), ("node", _OREF)], "unit"),
+        _nf("tr_link_nodes", "link_nodes", [("previous_node", _OREF), ("next_node", _OREF)], "unit"),
+        _nf("tr_insert_link", "_insert_link", [("first_node", _OREF), ("new_node", _REF), ("last_node", _OREF)], "unit"),
+        _nf("tr_node_insert_before", "insert_before", [("self", _REF), ("new_node", _REF)], "unit"),
+        _nf("tr_node_insert_after", "insert_after", [("self", _REF), ("new_node", _REF)], "unit"),
+        _nf("tr_node_remove", "remove", [("self", _REF)], "str"),
+        _P.Fun("tr_node_iter_next", "LinkedListNode.iter_next", [("self", _REF)], _REF, generator=True, ghost=_HG,
+               locals={"node": _OREF, "skip_current": "bool"}, fuel={1: "S (walk_fuel hp)"}),
+        # --- LinkedList
+        _lr("tr_ll_bool", "__bool__", [], "bool"),
+        _lr("tr_ll_len", "__len__", [], "Z"),
+        _lr("tr_ll_tail", "tail", [], ("option", "str")),
+        _lm("tr_ll_remove_node", "remove_node", [("node", _REF)], "unit"),
+        _lm("tr_ll_pop", "pop", [], "unit"),
+        _lr("tr_ll_iter_nodes", "iter_nodes", [], _REF, generator=True, locals={"head_node": _OREF}),
+        _lr("tr_ll_iter", "__iter__", [], "str", generator=True, locals={"node": _REF}),
+        _lm("tr_ll_append", "append", [("value", "str")], _REF, locals={"node": _REF}),
+        _lm("tr_ll_extend", "extend", [("values", ("list", "str"))], "unit", locals={"v": "str"}),
+        _lm("tr_ll_init", "__init__", [], "unit", locals={"values": ("option", ("list", "str"))}),
+        _lm("tr_ll_insert_node_before", "insert_node_before", [("new_node", _REF), ("existing_node", _REF)], _REF),
+        _lm("tr_ll_insert_node_after", "insert_node_after", [("new_node", _REF), ("existing_node", _REF)], _REF),
+        _lm("tr_ll_insert_before", "insert_before", [("value", "str"), ("existing_node", _REF)], _REF),
+        _lm("tr_ll_insert_after", "insert_after", [("value", "str"), ("existing_node", _REF)], _REF),
+        _lm("tr_ll_insert_at_head", "insert_at_head", [("value", "str")], _REF),
+        _lm("tr_ll_clear", "clear", [], "unit"),
+        # --- OrderedSet
+        _or("tr_os_contains", "__contains__", [("item", _STRI)], "bool"),
+        _or("tr_os_len", "__len__", [], "Z"),
+        _or("tr_os_iter", "__iter__", [], ("list", "str")),
+        _om("tr_os_add", "add", [("item", _STRI)], "unit", locals={"node": _REF}),
+        _om("tr_os_remove", "remove", [("item", _STRI)], "unit", locals={"node": _REF}),
+        _om("tr_os_extend", "extend", [("iterable", ("list", _STRI))], "unit", locals={"item": _STRI}),
+        _om("tr_os_reorder", "_reorder", [("item", _STRI), ("reinserter", _REINS)], "unit",
+            locals={"node": _REF, "new_node": _REF}),
+        _om("tr_os_order_last", "order_last", [("item", _STRI)], "unit"),
+        _om("tr_os_order_first", "order_first", [("item", _STRI)], "unit"),
+        _om("tr_os_order_before", "order_before", [("item", _STRI), ("reference_item", _STRI)], "unit",
+            locals={"reference_node": _REF}),
+        _om("tr_os_order_after", "order_after", [("item", _STRI), ("reference_item", _STRI)], "unit",
+            locals={"reference_node": _REF}),
+    ],
+    calls={
+        "resolve_ref": _P.Call("tr_resolve_ref", [("option", _WREF)], _OREF, True),
+        "weakref.ref": _P.Call("trp_weakref", [_REF], _WREF),
+        "LinkedListNode": _sub("tr_node_new", ["str"], _REF, ["hp"]),
+        "LinkedListNode.link_nodes": _sub("tr_link_nodes", [_OREF, _OREF], "unit", ["hp"]),
+        "LinkedListNode._insert_link": _sub("tr_insert_link", [_OREF, _REF, _OREF], "unit", ["hp"]),
+        "<LinkedListNode>.insert_before": _sub("tr_node_insert_before", [_REF, _REF], "unit", ["hp"]),
+        "<LinkedListNode>.insert_after": _sub("tr_node_insert_after", [_REF, _REF], "unit", ["hp"]),
+        "<LinkedListNode>.remove": _sub("tr_node_remove", [_REF], "str", ["hp"]),
+        "<LinkedListNode>.iter_next": _P.Call("tr_node_iter_next hp", [_REF], ("list", _REF), True),
+        "self.iter_nodes": _P.Call("tr_ll_iter_nodes hp s_head s_tail s_size", [], ("list", _REF), True),
+        "self.remove_node": _sub("tr_ll_remove_node", [_REF], "unit", _LLV),
+        "self.extend": _sub("tr_ll_extend", [("list", "str")], "unit", _LLV),
+        "self.append": _sub("tr_ll_append", ["str"], _REF, _LLV),
+        "self.insert_before": _sub("tr_ll_insert_before", ["str", _REF], _REF, _LLV),
+        "self.insert_node_before": _sub("tr_ll_insert_node_before", [_REF, _REF], _REF, _LLV),
+        "self.insert_node_after": _sub("tr_ll_insert_node_after", [_REF, _REF], _REF, _LLV),
+        # OrderedSet: self.__order is a LinkedList whose attributes are part of the state; self.__table an opaque dict
+        "self.__order.append": _sub("tr_ll_append", ["str"], _REF, _LLV),
+        "self.__order.insert_at_head": _sub("tr_ll_insert_at_head", ["str"], _REF, _LLV),
+        "self.__order.insert_before": _sub("tr_ll_insert_before", ["str", _REF], _REF, _LLV),
+        "self.__order.insert_after": _sub("tr_ll_insert_after", ["str", _REF], _REF, _LLV),
+        "self.__order.remove_node": _sub("tr_ll_remove_node", [_REF], "unit", _LLV),
+        "in self": _P.Call("tr_os_contains " + _OSGV, [_STRI], "bool", True),
+        "iter": _P.Call("tr_ll_iter hp s_head s_tail s_size", [("literal", "self.__order", "")], ("list", "str"), True),
+        "len": _P.Call("tr_ll_len hp s_head s_tail s_size", [("literal", "self.__order", "")], "Z", True),
+        "<ostable>.__contains__": _P.Call("trp_tbl_mem lower", [_TBL, _STRI], "bool"),
+        "<ostable>.__getitem__": _P.Call("trp_tbl_get lower", [_TBL, _STRI], _REF, True),
+        "<ostable>.__setitem__": _P.Call("trp_tbl_set lower", [_TBL, _STRI, _REF], "unit", mutates=True),
+        "<ostable>.__delitem__": _P.Call("trp_tbl_del lower", [_TBL, _STRI], "unit", True, mutates=True),
+        "<stri>.__eq__": _P.Call("trp_stri_eqb lower", [_STRI, _STRI], "bool"),
+        "self.add": _sub("tr_os_add", [_STRI], "unit", _OSV),
+        "self._reorder": _sub("tr_os_reorder", [_STRI, _REINS], "unit", _OSV),
+    },
+    consts={"self.__table": ("s_table", _TBL), "self.head_node": ("s_head", _OREF), "self.tail_node": ("s_tail", _OREF), "self._size": ("s_size", "Z")},
+    imports=["Dict.Common", "Dict.Heap", "Dict.TrPrims"])
+TR_MODULE.heap = _P.Heap("hp", _HEAPT, {
+    "LinkedListNode": _P.HeapClass(
+        "id",
+        fields={"_previous_node": (("option", _WREF), "trp_get_prev", "trp_set_prev"),
+                "next_node": (_OREF, "trp_get_next", "trp_set_next"),
+                "value": ("str", "trp_get_value", "trp_set_value")},
+        props={"previous_node": (_get_prev, _set_prev)},
+        eqb="Pos.eqb", opt_eqb="oid_eqb", alloc="trp_alloc", init="tr_node_init", new="tr_node_new")},
+    assume="trp_assume_some")
+TR_MODULE.coercions = [(_STRI, "str", "%s")]      # a _strI IS a str (the node's value is the item as spelled)
+
+
+@extract.register("TrLinkedList")
+def _gen_tr(repo):
+    return _P.translate_module(repo, TR_MODULE)
+
+
+import os as _os    # noqa: E402
+# (registered only while the theorem file is there, so that ./check C09 never breaks on a tree without it)
+TIE_FILE = "Props/C09Tie.v" if _os.path.exists(_os.path.join(
+    _os.path.dirname(_os.path.abspath(__file__)), "..", "..", "coq", "Props", "C09Tie.v")) else None
